@@ -9,6 +9,7 @@ import (
 	"bytes"
 	"encoding/binary"
 	"fmt"
+	"strings"
 
 	. "verifharness/common"
 	"verifharness/uefigen"
@@ -100,6 +101,27 @@ func pBig(args []string) string {
 		inner := bigVol(uefigen.FFS2, 64, 0, small)
 		x = bigVol(uefigen.FFS2, 4096, 8192, bigFile(0xA1, 0x02, bigSec(0x19, make([]byte, size))),
 			bigFile(0xB1, 0x0B, bigSec(0x17, inner)))
+	case "z", "l": // a compressed section whose total size (24 + encoded payload) is `size`
+		kind := 3
+		if args[0] == "l" {
+			kind = 1
+		}
+		seed := uint64(1)
+		if len(args) > 2 {
+			seed = UnN(args[2])
+		}
+		sec, got := bigCompressed(kind, size, seed)
+		if sec == nil {
+			return "harness-error cannot-build-section"
+		}
+		if got != size {
+			return fmt.Sprintf("skip") // the encoder's output could not be steered to the wanted size
+		}
+		x = bigVol(uefigen.FFS2, 4096, 8192, small, bigFile(0xD1, 0x02, sec))
+		if r := roundtripCheck(x); r != "ok" {
+			return fmt.Sprintf("%s [16MiB-%s-%s]", r, args[0], args[1])
+		}
+		return "ok"
 	default:
 		return "harness-error shape"
 	}
@@ -108,6 +130,96 @@ func pBig(args []string) string {
 	}
 	if r := fixedCheck(x); r != "ok" {
 		return fmt.Sprintf("%s [16MiB-%s-%s]", r, args[0], args[1])
+	}
+	return "ok"
+}
+
+// noise: incompressible bytes from the deterministic generator (8 bytes per step)
+func noise(seed uint64, n int) []byte {
+	r := NewRng(seed)
+	b := make([]byte, n+8)
+	for i := 0; i < n; i += 8 {
+		binary.LittleEndian.PutUint64(b[i:], r.U64())
+	}
+	return b[:n]
+}
+
+// gdSection: GUID-defined section in the header form its size demands (8-byte common header and
+// DataOffset 28 from 0xFFFFFF bytes on)
+func gdSection(kind int, attrs uint16, payload []byte) []byte {
+	g := uefigen.CodecGUID(kind)
+	n := 24 + len(payload)
+	var h []byte
+	doff := 24
+	if n >= 0xFFFFFF {
+		n += 4
+		doff = 28
+		h = []byte{0xff, 0xff, 0xff, 0x02, 0, 0, 0, 0}
+		binary.LittleEndian.PutUint32(h[4:], uint32(n))
+	} else {
+		h = []byte{byte(n), byte(n >> 8), byte(n >> 16), 0x02}
+	}
+	h = append(h, g[:]...)
+	h = binary.LittleEndian.AppendUint16(h, uint16(doff))
+	h = binary.LittleEndian.AppendUint16(h, attrs)
+	return append(h, payload...)
+}
+
+// bigCompressed builds a compressed section around one RAW section of noise such that
+// 24 + len(encoded payload) is `want` (the quantity GenSecHeader compares with 0xFFFFFF); returns the
+// section and the value reached.
+func bigCompressed(kind, want int, seed uint64) ([]byte, int) {
+	ns := noise(seed, want+64)
+	n := want - 24 - 300
+	var enc []byte
+	for try := 0; try < 8; try++ {
+		if n < 16 || n > len(ns) {
+			return nil, 0
+		}
+		var err error
+		enc, err = realEnc(kind, bigSec(0x19, ns[:n]))
+		if err != nil {
+			return nil, 0
+		}
+		if 24+len(enc) == want {
+			break
+		}
+		n += want - (24 + len(enc))
+	}
+	return gdSection(kind, 1, enc), 24 + len(enc)
+}
+
+// roundtripCheck: deep-tree preservation, fixed point and the independent reader in one pass
+// (each codec pass over 16 MiB costs a noticeable fraction of a second)
+func roundtripCheck(x []byte) string {
+	t, err := parse(x)
+	if err != nil {
+		return "FAIL input-does-not-parse " + err.Error()
+	}
+	d0 := deepOf(t)
+	if !strings.Contains(d0, "S:2:") {
+		return "FAIL input-section-not-decoded"
+	}
+	y, err := save(t)
+	if err != nil {
+		return "FAIL save-error " + err.Error()
+	}
+	t2, err := parse(y)
+	if err != nil {
+		return "FAIL saved-image-does-not-parse " + err.Error()
+	}
+	if d1 := deepOf(t2); d1 != d0 {
+		return "FAIL deep-tree-differs " + firstDiff(d0, d1)
+	}
+	z, err := save(t2)
+	if err != nil {
+		return "FAIL second-save-fails " + err.Error()
+	}
+	if !bytes.Equal(y, z) {
+		return fmt.Sprintf("FAIL second-save-differs len %x vs %x", len(y), len(z))
+	}
+	if r := checkImage(y); r != "" {
+		return "FAIL independent-check " + r
 	}
 	return "ok"
 }
